@@ -441,7 +441,7 @@ def coap_encode_cases(draw):
             "lens": draw(st.lists(st.integers(0, 300), min_size=k, max_size=k)), "op": draw(st.integers(0, 8))}
 
 
-from props.ble_layers import C17_BLE_LAYERS  # noqa: E402
+from props.ble_layers import C08_BLE_LAYERS as _BLE_ABANDONED, C17_BLE_LAYERS  # noqa: E402
 from props.coap_layers import C13_LAYERS as _COAP_TRANSPORT  # noqa: E402
 from props.coap_layers import C17_COAP_INITIAL_LAYERS  # noqa: E402
 
@@ -466,6 +466,8 @@ SPEC = Property(
         Layer("coap-encode-gen", run_coap_encode, strategy=coap_encode_cases, n={"quick": 1000, "thorough": 20000}),
         *C17_BLE_LAYERS,
         *C17_COAP_INITIAL_LAYERS,
+        # requests issued after an abandoned one (cancelled at every point of its fragment writes / reads) still reach the accessory whole
+        *[Layer("ble-requests-after-abandonment", l.run_case, enumerate=l.enumerate, exhaustive=l.exhaustive, space=l.space) for l in _BLE_ABANDONED],
         *[Layer("coap-transport-" + l.name.replace("coap-", ""), l.run_case, strategy=l.strategy, enumerate=l.enumerate, n=l.n, exhaustive=l.exhaustive, space=l.space) for l in _COAP_TRANSPORT],
     ],
     assumptions=["reference reassembly written from HAP-BLE 7.3.3-7.3.5; how full each fragment is, is not constrained",
